@@ -358,7 +358,8 @@ const vPlBlockKinds = 10
 //
 // The reference below is a transcription of these steps on the struct form of the pre-state (it calls none of the
 // repository's processing functions); the block is accepted exactly when the transcription accepts, and then every
-// top-level field of the post-state has the root of the transcription's field (21 per-field obligations).
+// top-level field of the post-state has the root of the transcription's field (20 per-field root obligations; the
+// registry is compared leaf by leaf: count, all eight fields of every validator, and every balance - see vPlExpectFields).
 //
 // Block: header with symbolic slot / proposer index (0..3) and a parent root that is either the right one or arbitrary;
 // randao reveal, every operation signature symbolic (their validity is decided by the uninterpreted BLS predicates, on
